@@ -7,7 +7,7 @@ From stdpp Require Import base option list numbers fin_maps nmap.
 From Verif.Base Require Import Bytes.
 From Verif.Topics Require Import Predefined.
 From Verif.Codec Require Import Packets Decode Encode RefParse.
-From Verif.Checkers Require Import ChkCodec ChkGw.
+From Verif.Checkers Require Import ChkCodec ChkGw ChkGw2.
 From Verif.Gateway Require Import GwTypes GwStep.
 
 Definition nmap_empty : topic_map := ∅.
@@ -19,4 +19,5 @@ Extraction "model.ml"
   beq nmap_empty nmap_insert nmap_lookup nmap_to_list get_name get_ids get_id pd_add pd_merge
   read_packet read_dgram pack ref_parse ref_split wf_pkt pkt_eqb chk_C21 chk_C22 chk_short
   encode_short decode_short is_short_topic
-  init_state gw_step gw_run chk_C14 chk_C01 chk_C23 chk_C24 obs_of_outs mqtt_valid.
+  init_state gw_step gw_run chk_C14 chk_C01 chk_C23 chk_C24 obs_of_outs mqtt_valid
+  chk_C03 chk_C04 chk_C07 chk_C08 chk_C09 chk_C11.
